@@ -51,10 +51,10 @@ def setPrefix (l : Line) (cpos : Int) : G (List Nat) := do
   if b < 0 ∨ c > len l ∨ b > c then throw (.oob "prefix slice")
   return trimS ((l.drop b.toNat).take (c - b).toNat)
 
-/-- insertCandidate on the pinned code: cursor arithmetic in *bytes* of the prefix -/
+/-- insertCandidate: the guard compares *byte* lengths, the cursor arithmetic counts runes -/
 def insertCandidate (l : Line) (cpos : Int) (pfx value : List Nat) : G (Line × Int) := do
   if (utf8 value).length < (utf8 pfx).length then return (l, cpos)
-  let plen : Int := (utf8 pfx).length
+  let plen : Int := pfx.length
   -- compCursor.Move(-len(prefix)) clamps
   let p := cpos - plen
   let p := if p < 0 then 0 else if p > len l then len l else p
